@@ -6,7 +6,9 @@ contract (from evidence/<Cxx>.json), applies each to /repo, runs `./check <Cxx>`
 killed (exit 1) / survived (exit 0) / undecided (exit 2).  Survivors are either equivalent mutants or contract gaps."""
 import json, os, random, re, subprocess, sys
 pid = sys.argv[1]; N = int(sys.argv[2]) if len(sys.argv) > 2 else 12; seed = int(sys.argv[3]) if len(sys.argv) > 3 else 1
-ev = json.load(open("/verif/evidence/%s.json" % pid))
+VERIF = os.path.dirname(os.path.dirname(os.path.abspath(__file__)))
+REPO = os.environ.get("VERIF_REPO", "/repo")
+ev = json.load(open(os.path.join(VERIF, "evidence/%s.json" % pid)))
 fns = [f for f in ev["coverage"]["functions_under_contract"] if f.get("mode") == "exec" and f.get("file") and f.get("lines") and f["lines"][1] > f["lines"][0] and f["file"].endswith(".rs")]
 OPS = [(r" < ", " <= "), (r" <= ", " < "), (r" > ", " >= "), (r" >= ", " > "), (r" == ", " != "), (r" != ", " == "), (r" && ", " || "), (r" \|\| ", " && "),
        (r"\btrue\b", "false"), (r"\bfalse\b", "true"), (r" \+ 1\b", " + 2"), (r" - 1\b", " - 2"), (r"\+= ", "-= "), (r"!self\.", "self."), (r"!this\.", "this."),
@@ -15,7 +17,7 @@ if os.environ.get("MUT_UNIT"):
     fns = [f for f in fns if f.get("unit") in os.environ["MUT_UNIT"].split(",")]
 cands = []
 for f in fns:
-    path = os.path.join("/repo", f["file"])
+    path = os.path.join(REPO, f["file"])
     if not os.path.exists(path):
         continue
     lines = open(path).read().split("\n")
@@ -39,7 +41,7 @@ for (file, ln, a, b, new, fn, kind) in cands:
     if (file, ln) in seen:
         continue
     seen.add((file, ln))
-    path = os.path.join("/repo", file)
+    path = os.path.join(REPO, file)
     orig = open(path).read()
     lines = orig.split("\n")
     old = lines[ln]
@@ -49,7 +51,7 @@ for (file, ln, a, b, new, fn, kind) in cands:
         lines[ln] = old[:a] + new + old[b:]
     open(path, "w").write("\n".join(lines))
     try:
-        p = subprocess.run(["./check", pid], cwd="/verif", capture_output=True, text=True, timeout=3600)
+        p = subprocess.run(["./check", pid], cwd=VERIF, capture_output=True, text=True, timeout=3600)
         rc = p.returncode
     finally:
         open(path, "w").write(orig)
@@ -64,4 +66,4 @@ for (file, ln, a, b, new, fn, kind) in cands:
     print("%-9s %s:%d %s  [%s]\n           - %s\n           + %s   %s" % (out, file, ln + 1, fn, kind, old.strip()[:100], lines[ln].strip()[:100], why))
     sys.stdout.flush()
 print(res)
-subprocess.run(["git", "-C", "/repo", "status", "--short"])
+subprocess.run(["git", "-C", REPO, "status", "--short"])
